@@ -236,6 +236,7 @@ type Ctx struct {
 	typeNames map[string]string
 	usedNames map[string]bool
 	wm        map[string]Term // component version -> allocation watermark
+	byteAx    map[string]bool
 }
 
 type structSort struct {
@@ -295,7 +296,7 @@ func (c *Ctx) fact(t Term) {
 	if t.S == "true" || c.factSeen[t.S] {
 		return
 	}
-	if strings.Contains(t.S, "|q!") || strings.Contains(t.S, "|a!") || strings.Contains(t.S, "|$p:") {
+	if strings.Contains(t.S, "|q!") || strings.Contains(t.S, "|a!") || strings.Contains(t.S, "|$p:") || strings.Contains(t.S, "|l!") {
 		return // mentions a bound variable / formal parameter: not a closed fact
 	}
 	c.factSeen[t.S] = true
